@@ -253,6 +253,44 @@ func scFaults(seq string, gap time.Duration) func(x *vs.Exec) {
 	}
 }
 
+// many: a client with n proxies loses its control connection; it must come back with all of them. (The client's
+// teardown announces the end of every proxy on the dying session's bounded send queue: the number of proxies is an input.)
+func scMany(n int, fault string) func(x *vs.Exec) {
+	return func(x *vs.Exec) {
+		var ps []v1.ProxyConfigurer
+		for i := 0; i < n; i++ {
+			ps = append(ps, cw.TCPProxy(fmt.Sprintf("p%03d", i), 8080, 9000+i))
+		}
+		w := cw.New(x, cw.Opt{HeartbeatInterval: 1, HeartbeatTimeout: 3, NoPoolRequests: true, Proxies: ps})
+		all := func() bool { return w.Srv.LiveCount() == 1 && len(w.Srv.Registered()) == n }
+		await := func(within time.Duration, what string) bool {
+			t0 := w.X.Now()
+			vs.Block("await-all", func() bool { return all() || w.X.Now() > t0+within })
+			if !all() {
+				vs.Fail("client with %d proxies, %s: %v later it has not restored its session and proxies (live sessions=%d, registered=%d of %d)", n, what, within, w.Srv.LiveCount(), len(w.Srv.Registered()), n)
+				return false
+			}
+			return true
+		}
+		if !await(120*time.Second, "first login") {
+			return
+		}
+		switch fault {
+		case "cut":
+			w.Srv.CutAll()
+		case "restart":
+			w.Srv.Restart()
+		case "mute":
+			w.Srv.MutePong = true
+			time.Sleep(8 * time.Second)
+			w.Srv.MutePong = false
+		}
+		time.Sleep(time.Second)
+		await(180*time.Second, "after the control connection was lost ("+fault+")")
+		w.Svc.Close()
+	}
+}
+
 // userEcho sends payload through the public port and waits (bounded, virtual time) for the echo.
 func userEcho(w *tw.World, src string, port int, payload string) string {
 	u, err := w.H.DialFrom(src, fmt.Sprintf("127.0.0.1:%d", port))
@@ -351,6 +389,11 @@ func scenarios() {
 		case "heal":
 			s.Body = scHeal(f[1])
 			s.End = sw.StdEnd
+		case "many":
+			var n int
+			fmt.Sscanf(f[1], "%d", &n)
+			s.Body = scMany(n, f[2])
+			s.End = endClient
 		case "faults":
 			gap := time.Second
 			if len(f) > 2 {
@@ -373,7 +416,7 @@ func main() {
 	if c == nil {
 		return
 	}
-	c.Rule("E1 on the virtual clock: (server) real frps vs scripted peer for heartbeat timeouts {3,10,90}s x ping periods x every second at which the peer falls silent or starts sending invalid heartbeats; (client) real frpc vs model server: silent server, and all fault sequences of length <= L over {unreachable for 0/1/30/300 s, login rejected, cut right after login, cut, heartbeats unanswered, restart} with the server down at start or not; oracle: drop within (timeout, timeout+2s], never for a live peer, resources released, self-healing within 60 s, a server that accepts logins and drops the session at once for a minute, never 3 failed connection attempts within 190 ms, <= 10 per second and <= 40 per minute; (tunnel) real frps + real frpc + backend: control connection severed on the client's side only, on the server's side only, or cut: the tunnel carries traffic again within 100 s, all schedules with at most B deviations; non-trivial = distinct observation trace")
+	c.Rule("E1 on the virtual clock: (server) real frps vs scripted peer for heartbeat timeouts {3,10,90}s x ping periods x every second at which the peer falls silent or starts sending invalid heartbeats; (client) real frpc vs model server: silent server, and all fault sequences of length <= L over {unreachable for 0/1/30/300 s, login rejected, cut right after login, cut, heartbeats unanswered, restart} with the server down at start or not; clients with 99 / 100 / 101 / 130 proxies (around the capacity of the session's send queue) that lose the control connection; oracle: drop within (timeout, timeout+2s], never for a live peer, resources released, self-healing within 60 s, a server that accepts logins and drops the session at once for a minute, never 3 failed connection attempts within 190 ms, <= 10 per second and <= 40 per minute; (tunnel) real frps + real frpc + backend: control connection severed on the client's side only, on the server's side only, or cut: the tunnel carries traffic again within 100 s, all schedules with at most B deviations; non-trivial = distinct observation trace")
 	pool := vs.GetPool(c.Workers)
 	var names []string
 	for _, T := range []int{3, 10, 90} {
@@ -410,6 +453,12 @@ func main() {
 	}
 	rec(nil, L)
 	rec([]string{"downstart"}, L-1)
+	var many []string
+	for _, n := range []int{99, 100, 101, 130} {
+		for _, f := range []string{"cut", "mute"} {
+			many = append(many, fmt.Sprintf("many/%d/%s", n, f))
+		}
+	}
 	for i := 0; i < len(names); i += 256 {
 		if c.TimeUp() {
 			c.Cap(fmt.Sprintf("enumeration stopped by the budget after %d of %d cases", i, len(names)))
@@ -436,6 +485,10 @@ func main() {
 	// schedule deviations on representative cases
 	for _, n := range []string{"srv/T3-e1-s2-i0", "srv/T3-e1-s4-i1", "silent/1-3-1", "faults/cut,down1", "faults/restart,reject"} {
 		c.ExploreBoth(n, 1, 0.25)
+	}
+	// many proxies: both default orders (whether the dying session's sender or its teardown runs first is the point)
+	for _, n := range many {
+		c.ExploreBoth(n, 0, 0.1)
 	}
 	// real frps + real frpc: the tunnel heals after the control connection dies on one side or on both
 	for _, n := range []string{"heal/halfopen-client", "heal/halfopen-server", "heal/cut"} {
